@@ -25,7 +25,8 @@ EXPLANATION = (
     "group-aware function runs, None results are replaced by function.default, the helper columns are removed again; (OWN-3) "
     "count groups a copy, not the receiver; grouped modify restores the original row order with argsort(concatenate(slices)); "
     "(GRD-sentinel / GRD-empty) group boundaries come from DataFrame.unique, whose NA handling is checked under C02 and re-checked "
-    "here. Not decided: that summaries equal lambdas; group sizes."
+    "here; every (name, function) pair stores a column on every path, unmarked functions are not group-aware, the per-group frames "
+    "exist before an arbitrary function is applied. Not decided: that summaries equal lambdas; group sizes."
 )
 ASSUMPTIONS = ["np.split(v, points) cuts v before each point; np.repeat(arange(k), sizes) labels contiguous runs",
                "np.lexsort is stable"]
